@@ -91,11 +91,11 @@ func timeWorldEval(info *types.Info, cond ast.Expr, age int64) (bool, bool) {
 			}
 		case *ast.SelectorExpr:
 			if fv := fieldOf(info, x); fv != nil {
-				if containsFold(fv.Name(), "lastuse") {
+				if containsFold(objName(fv), "lastuse") {
 					return constant.MakeInt64(1000), true
 				}
 				// configured durations / lifetimes
-				if containsFold(fv.Name(), "lifetime") || containsFold(fv.Name(), "interval") || containsFold(fv.Name(), "timeout") {
+				if containsFold(objName(fv), "lifetime") || containsFold(objName(fv), "interval") || containsFold(objName(fv), "timeout") {
 					return constant.MakeInt64(100), true
 				}
 			}
@@ -276,7 +276,7 @@ func checkC19(c *Check) {
 			return false
 		}
 		nt := namedOf(ch.Elem())
-		return nt != nil && nt.Obj().Name() == "Conn" && nt.Obj().Pkg() == pk.Types
+		return nt != nil && objName(nt.Obj()) == "Conn" && nt.Obj().Pkg() == pk.Types
 	}
 
 	// ---- R1
@@ -653,7 +653,7 @@ func checkC19(c *Check) {
 				ast.Inspect(e, func(n ast.Node) bool {
 					switch s := n.(type) {
 					case *ast.SelectorExpr:
-						if fv := fieldOf(info, s); fv != nil && containsFold(fv.Name(), "lastuse") {
+						if fv := fieldOf(info, s); fv != nil && containsFold(objName(fv), "lastuse") {
 							mentionsBucketStamp = true
 						}
 					case *ast.CallExpr:
@@ -874,13 +874,13 @@ func checkC19(c *Check) {
 				if call, ok := x.(*ast.CallExpr); ok {
 					if isCall(fi.Info(), call, "~/"+poolRel+".P.Return") {
 						n++
-						if fi.Name() != "remote.(*remoteDelivery).Close" {
+						if objName(fi) != "remote.(*remoteDelivery).Close" {
 							okUsers = false
 						}
 					}
 					if isCall(fi.Info(), call, "~/"+poolRel+".P.Get") {
 						n++
-						if fi.Name() != "remote.(*remoteDelivery).connectionForDomain" {
+						if objName(fi) != "remote.(*remoteDelivery).connectionForDomain" {
 							okUsers = false
 						}
 					}
